@@ -611,7 +611,9 @@ func (ft *funcTrans) namesAtHeader(hdr *ssa.BasicBlock) map[string]Term {
 			}
 			if v, ok := ft.vals[dr.X]; ok && v.L == nil && v.Tup == nil && v.Bad == "" {
 				if _, isParam := ft.env[id.Name]; !isParam {
-					env[id.Name] = v.T
+					if _, isCell := ft.envCells[id.Name]; !isCell {
+						env[id.Name] = v.T
+					}
 				}
 			} else if c, ok := dr.X.(*ssa.Const); ok {
 				_ = c
@@ -645,6 +647,9 @@ func (ft *funcTrans) namesAt(b *ssa.BasicBlock) map[string]Term {
 					continue
 				}
 				if id, ok := x.Expr.(*ast.Ident); ok {
+					if _, isCell := ft.envCells[id.Name]; isCell {
+						continue
+					}
 					if v, ok := ft.vals[x.X]; ok && v.L == nil && v.Tup == nil && v.Bad == "" {
 						env[id.Name] = v.T
 					}
